@@ -2,6 +2,7 @@
 import json
 
 from props import names_common as nc
+from props import c12_blank as bl
 
 ENGINE = "names"
 RULE = ("bounded-exhaustive token sequences over {Ab, and, AND, aNd, an, d, space, tab, newline, ~, {, }, backslash, \\', comma} "
@@ -9,7 +10,13 @@ RULE = ("bounded-exhaustive token sequences over {Ab, and, AND, aNd, an, d, spac
         "seeded samples of lengths 6 and 7), random author lists of 1-200 names (incl. non-ASCII letters and Unicode spaces, CR), "
         "the repository's co-author corpus, and SeparateCoAuthors/MergeCoAuthors on entries with author/editor/translator fields "
         "(incl. non-string values). distinct = distinct input text (and middleware sequence); non-trivial = the text contains a "
-        "whitespace-delimited and-candidate, a brace or a backslash (i.e. the machine leaves its start step)")
+        "whitespace-delimited and-candidate, a brace or a backslash (i.e. the machine leaves its start step). "
+        "Blank-like classes (harness/props/c12_blank.py; charclasses OTHER_ISSPACE, STRING_WHITESPACE_ONLY, INVISIBLE_NOT_SPACE: "
+        "only space, tab, CR, LF are blanks): for every character x of the class every token sequence of length <= 5 over "
+        "{Ab, and, space, x} (thorough: {Ab, and, aNd, space, newline, x}) plus a seeded sample of lengths 4-7 over the full alphabet "
+        "and the whole class; side-gap-and-gap-side templates with x next to / instead of the blanks, as a side, after a backslash "
+        "(exhaustive small set per x, seeded sample of a wider one); random lists with x at name edges, as names, around 'and', at "
+        "the list edges; the same texts through the middlewares")
 TRUSTED = ["independent Python oracle of the property text (harness/props/names_common.py: conserved, ref_split)"]
 ASSUMPTIONS = ["characters are compared by code point; CPython's flags are not consulted by the splitter"]
 
@@ -106,6 +113,22 @@ def generate(rng, tier):
         mws = rng.choice([[0], [0, 1], [0, 1, 0], [1], [1, 0]])
         nf = None if rng.random() < 0.85 else rng.choice([["author"], ["title", "author"], []])
         cases.append({"stream": "middleware", "input": {"level": "mw", "fields": fields, "mws": mws, "nf": nf}})
+    # ---- blank-like character classes (appended: the streams above keep their inputs)
+    for s in bl.gen_tokens(rng, tier, seen):
+        cases.append({"stream": "blank-tokens", "input": {"level": "fn", "s": s}})
+    for s in bl.gen_templates(rng, tier, seen):
+        cases.append({"stream": "blank-templates", "input": {"level": "fn", "s": s}})
+    for _ in range(4000 if tier == "quick" else 40000):
+        cases.append({"stream": "blank-lists", "input": {"level": "fn", "s": bl.random_list(rng, FIRST, GLUE)}})
+    for _ in range(2000 if tier == "quick" else 20000):
+        fields = []
+        keys = ["author", "editor", "translator", "title", "Author"]
+        rng.shuffle(keys)
+        for k in keys[:rng.randint(1, 4)]:
+            fields.append([k, bl.random_list(rng, FIRST, GLUE) if rng.random() < 0.5 else bl.short_text(rng)])
+        mws = rng.choice([[0], [0, 1], [0, 1, 0], [1], [1, 0]])
+        nf = None if rng.random() < 0.85 else rng.choice([["author"], ["title", "author"], []])
+        cases.append({"stream": "blank-middleware", "input": {"level": "mw", "fields": fields, "mws": mws, "nf": nf}})
     return cases
 
 
@@ -146,7 +169,11 @@ def check_function(s, got):
     if not isinstance(got, list) or not all(isinstance(p, str) for p in got):
         return False, "result is not a list of strings: %r" % (got,)
     if not nc.conserved(s, got):
-        return False, "pieces and ' and ' separators do not account for the text: %r -> %r" % (s, got)
+        return False, "pieces and ' and ' separators do not account for the text: %r -> %r (%s)" % (s, got, bl.accounted(s, got)[1])
+    if bl.RE_ANY.search(s):
+        ok, lost = bl.accounted(s, got)
+        if not ok:
+            return False, "a non-blank character is not accounted for: %r -> %r (%s)" % (s, got, lost)
     again = sp(" and ".join(got))
     if again != got:
         return False, "merge+split is not idempotent: %r -> %r -> %r" % (s, got, again)
@@ -168,7 +195,7 @@ def impl(case):
         rec = {"sx_in": [80, enc.enc_str(s)], "key": json.dumps(s)}
         bal = nc.balanced(s.strip(nc.WS4))
         rec["nontrivial"] = any(c in s.strip(nc.WS4) for c in " \t\r\n{}\\")
-        rec["tags"] = ["balanced" if bal else "unbalanced"]
+        rec["tags"] = ["balanced" if bal else "unbalanced"] + bl.tags(s)
         if r[0] == "exc":
             rec["sx_out"] = implutil.r_exc(r[1])
             rec["oracle"] = {"ok": False, "detail": "split_multiple_persons_names raised %s on %r" % (r[2], s)}
@@ -214,6 +241,8 @@ def impl(case):
         return lib
     r = implutil.guarded(run)
     rec = {"sx_in": sx_in, "key": json.dumps([inp["fields"], inp["mws"], nf]), "nontrivial": True, "tags": ["mw"]}
+    blank_tags = sorted(set(t for k, v in orig if k in name_fields and isinstance(v, str) for t in bl.tags(v)))
+    rec["tags"] += ["mw:" + t for t in blank_tags]
     if r[0] == "exc":
         rec["sx_out"] = implutil.r_exc(r[1])
         # only a non-string value in a name field may make SeparateCoAuthors raise / a non-str list MergeCoAuthors
